@@ -143,6 +143,18 @@ def r1(ctx):
                 key='dassh.reactor | _setup_zpts call sites')
 
 
+def _first_true_index(e, name):
+    """e is an accepted spelling of 'index of the first True of `name`'."""
+    if isinstance(e, ast.Call) and call_name(e) == 'int' and len(e.args) == 1:
+        e = e.args[0]
+    s = ' '.join(src(e).split())
+    forms = ('np.where(%s)[0][0]', 'np.nonzero(%s)[0][0]',
+             'np.flatnonzero(%s)[0]', 'np.argmax(%s)', '%s.index(True)',
+             'list(%s).index(True)', 'np.where(%s)[0].min()',
+             'np.min(np.where(%s)[0])', 'min(np.where(%s)[0])')
+    return any(s == f % name for f in forms)
+
+
 def r2(ctx):
     fi = ctx.repo.func('reactor', 'Reactor._check_dz')
     rets = [n for n in walk_no_nested(fi.node) if isinstance(n, ast.Return)]
@@ -193,7 +205,7 @@ def r2(ctx):
                 key=fi.full + ' | crossing')
     # first crossed boundary (bounds are sorted: np.unique)
     k = U.single_def(fi.node, 'crossed_bound')
-    ctx.require(k is not None and src(k) == 'np.where(cross_boundary)[0][0]',
+    ctx.require(k is not None and _first_true_index(k, 'cross_boundary'),
                 'C05.R2', fi, k if k is not None else fi.node,
                 'the *first* crossed boundary must be taken',
                 key=fi.full + ' | first crossing')
